@@ -91,9 +91,9 @@ def evalRun (kv : List (String × String)) : Option String := do
   let pend : Bool := var.endsWith "pending"
   let ident : Bool := var.endsWith "identity"
   let c0 : Cfg := { e := ne, a := na, ch := nat "ch", n := nat "n", crl := crl, ids := ids, pend := pend, identity := ident }
-  -- a kind the code does not know ("authorizing"): never consulted, in either mode
-  let c1 : Cfg := if (lookup kv "ct").getD "all" = "kindlower" then { c0 with e := 0, a := 0 } else c0
-  let c := c1.consulted ctl wh (var.startsWith "admin")
+  -- a kind the code does not know ("authorizing"): the provisioner fails to initialise
+  let kindKnown := (lookup kv "ct").getD "all" != "kindlower"
+  let c := c0.consulted ctl wh (var.startsWith "admin") kindKnown
   let d0 : Durable := {}
   let e : Env := if whdeny then standing e op c d0 8 else e
   let r := runOp e op c d0
